@@ -512,6 +512,8 @@ Proof.
     openP H. unfold set_conn, cn in *. brute.
   - destruct (e_cmds (eh (gep s x)) =? 0); cbn [fst]; [exact H|]. apply kill_invP.
     openP H. unfold set_hnd, cn in *. brute.
+  - destruct (e_cmds (eh (gep s x)) =? 0); cbn [fst]; [exact H|].
+    openP H. unfold set_hnd, cn in *. brute.
   - cbn [fst]. openP H. unfold slo, cn in *. brute.
   - destruct (per s =? 0); cbn [fst]; [exact H|apply kill_invP; exact H].
 Qed.
@@ -1466,6 +1468,8 @@ Proof.
     destruct x, y; cbn; unfold dview, cn, hn, gl; cbn in *; rewrite ?Ea; reflexivity.
   - destruct (e_cmds (eh (gep s x)) =? 0); cbn [fst]; [exact H|]. apply kill_invD.
     intros y. unfold InvD. replace (dview _ y) with (dview s y) by (destruct x, y; reflexivity). apply H.
+  - destruct (e_cmds (eh (gep s x)) =? 0); cbn [fst]; [exact H|].
+    intros y. unfold InvD. replace (dview _ y) with (dview s y) by (destruct x, y; reflexivity). apply H.
   - cbn [fst]. intros y. unfold InvD. replace (dview _ y) with (dview s y) by (destruct x, y; reflexivity). apply H.
   - destruct (per s =? 0); cbn [fst]; [exact H|apply kill_invD; exact H].
 Qed.
@@ -1503,102 +1507,3 @@ Proof.
   fold s in E. cbn in E. rewrite E. unfold vseen, vpipe. cbn. f_equal. reassoc.
 Qed.
 
-(* ================================================================== the second invariant: per endpoint *)
-Fixpoint alt_state (st0 : bool) (l : list hev) : option bool :=
-  match l with
-  | [] => Some st0
-  | HOpened _ :: t => if st0 then None else alt_state true t
-  | HClosed _ :: t => if st0 then alt_state false t else None
-  end.
-
-Lemma alt_state_app a : forall st0 b, alt_state st0 (a ++ b) =
-  match alt_state st0 a with Some st1 => alt_state st1 b | None => None end.
-Proof.
-  induction a as [|e a IH]; intros st0 b; cbn; [reflexivity|].
-  destruct e, st0; auto.
-Qed.
-
-(* a simpler characterisation: the largest period opened so far *)
-Fixpoint maxop (l : list hev) : N :=
-  match l with
-  | [] => 0
-  | HOpened k :: t => N.max k (maxop t)
-  | HClosed _ :: t => maxop t
-  end.
-
-Lemma maxop_app a b : maxop (a ++ b) = N.max (maxop a) (maxop b).
-Proof. induction a as [|e a IH]; cbn; [lia|]. destruct e; rewrite IH; lia. Qed.
-
-(* pending events: opened periods increase, lie above lo and do not exceed hi *)
-Fixpoint ev_ok (lo hi : N) (l : list hev) : Prop :=
-  match l with
-  | [] => True
-  | HOpened j :: t => lo < j /\ j <= hi /\ ev_ok j hi t
-  | HClosed _ :: t => ev_ok lo hi t
-  end.
-
-Lemma ev_ok_weaken l : forall lo hi hi', ev_ok lo hi l -> hi <= hi' -> ev_ok lo hi' l.
-Proof.
-  induction l as [|e l IH]; intros lo hi hi' H Hh; cbn in *; [exact I|].
-  destruct e; [|eapply IH; eauto]. destruct H as (A & B & C). repeat split; [exact A|lia|eapply IH; eauto].
-Qed.
-
-Lemma ev_ok_snoc_closed l k : forall lo hi, ev_ok lo hi l -> ev_ok lo hi (l ++ [HClosed k]).
-Proof.
-  induction l as [|e l IH]; intros lo hi H; cbn in *; [exact I|].
-  destruct e; [|apply IH; exact H]. destruct H as (A & B & C). repeat split; auto.
-Qed.
-
-Lemma ev_ok_snoc_opened l p : forall lo hi, ev_ok lo hi l -> lo <= hi -> hi < p -> ev_ok lo p (l ++ [HOpened p]).
-Proof.
-  induction l as [|e l IH]; intros lo hi H Hl Hp; cbn in *.
-  - repeat split; lia.
-  - destruct e; [|eapply IH; eauto]. destruct H as (A & B & C). repeat split; [exact A|lia|].
-    eapply IH; eauto.
-Qed.
-
-Fixpoint mono_from (last : N) (l : list notif) : Prop :=
-  match l with [] => True | n :: t => last <= n_per n /\ mono_from (n_per n) t end.
-
-Lemma mono_snoc p n : n_per n = p -> forall l a, mono_from a l -> Forall (fun x => n_per x <= p) l -> a <= p ->
-  mono_from a (l ++ [n]).
-Proof.
-  intros Hn. induction l as [|x l IH]; intros a Hm Hf Ha; cbn in *.
-  - split; [lia|exact I].
-  - destruct Hm as [H1 H2]. inversion Hf; subst. split; [exact H1|]. apply IH; auto.
-Qed.
-
-Definition b2n (b : bool) : N := if b then 1 else 0.
-
-Record InvE (c : cfg) (s : st) (z : bool) : Prop := mkInvE {
-  (* the user channel never holds more than its capacity, counting the reserved slot *)
-  e1_res : len (e_nq (hn s z)) + b2n (e_res (cn s z)) <= c_n (ecf c z);
-  e1_rw : e_rwait (cn s z) = true -> e_res (cn s z) = false;
-  (* sizes *)
-  e1_out : Forall (fun n => n_len n <= c_max (ecf c z)) (carrier (glo s z) ++ e_sk (cn s z));
-  e1_in : Forall (fun n => n_len n <= c_max (ecf c z) /\ n_len n <= c_max (ecf c (negb z))) (seen s z);
-  (* a notification is reported only as part of the stream it was sent on *)
-  e1_conf : e_dper (gl s z) = map (fun n => Some (n_per n)) (e_del (gl s z));
-  (* Opened and Closed alternate *)
-  e1_alt : alt_state false (e_seen (gl s z) ++ e_evs (hn s z)) = Some (e_alive (cn s z));
-  (* periods only grow *)
-  e1_lo : maxop (e_seen (gl s z)) <= e_per (cn s z);
-  e1_evs : ev_ok (maxop (e_seen (gl s z))) (e_per (cn s z)) (e_evs (hn s z));
-  e1_peers : forall k, e_peers (hn s z) = Some k -> k = maxop (e_seen (gl s z));
-  e1_mono : mono_from 0 (e_del (gl s z));
-  e1_dle : Forall (fun n => n_per n <= maxop (e_seen (gl s z))) (e_del (gl s z));
-  (* at most one ForceClose per period *)
-  e1_fnd : NoDup (e_fclog (gl s z));
-  e1_fle : Forall (fun k => k <= maxop (e_seen (gl s z))) (e_fclog (gl s z));
-  e1_fcl : forall k, e_peers (hn s z) = Some k -> In k (e_fclog (gl s z)) -> e_clog (hn s z) = true
-}.
-
-Definition InvB (c : cfg) (s : st) : Prop := forall z, InvE c s z.
-
-Definition wf_cfg (c : cfg) : Prop := 1 <= c_n (cfA c) /\ 1 <= c_n (cfB c).
-
-Lemma init_invB c hs : wf_cfg c -> InvB c (init hs).
-Proof.
-  intros [W1 W2] z. destruct z; constructor; unfold seen, cn, hn, gl; cbn; intros;
-    try apply Forall_nil; try constructor; auto; try discriminate; try lia.
-Qed.
